@@ -23,7 +23,7 @@ LEVEL_TEXT = ("Lean 4 theorems about an executable model of the file and directo
 LEVEL_NOTE = ("Trusted: Lean kernel; axioms propext/Classical.choice/Quot.sound; the hash is a parameter with collision-freeness on the occurring "
               "streams as hypothesis, protobuf marshalling a parameter with a left-inverse hypothesis; os.RemoveAll/MkdirAll/Create/Symlink are "
               "assumed to behave as the pure FS functions (sampled by the tie). Not modelled: permission errors, special files, symlinks in the "
-              "ancestor chain of the destination or at a file output path, non-UTF-8 names (protobuf rejects them at write time), mode bits other "
+              "ancestor chain of the destination (the OS follows them; `Clear` excludes them), non-UTF-8 names (protobuf rejects them at write time), mode bits other "
               "than 'some executable bit set', the interleaving of the restore goroutines (only their joint result).")
 TECHNIQUE = "Lean 4 proof over an executable model + differential correspondence with the real output handlers + before/after listing oracle"
 PROP_MODULES = ["GrogModel.Props.C06", "GrogModel.Props.ComposeStores"]
@@ -39,15 +39,16 @@ OBLIGATIONS = [
 ]
 ASSUMPTIONS = [
     "hash collision-free on the occurring streams; protobuf Tree marshalling has a left inverse (hypotheses of the theorems)",
-    "ancestors of the destination are directories or absent (hypothesis ParentsOK); otherwise restore reports an error",
+    "ancestors of the destination are directories or absent (hypothesis Clear; symlinked ancestors are followed by the OS and not modelled); at the destination itself anything may sit",
     "the workspace is not modified by anything else while outputs are written or restored",
 ]
 
-PKGS = ["", "p", "p/q"]
-DIR_IDS = ["out", "out/sub/dir", "dist", S.proto("öut/d ir")]
-FILE_IDS = ["f.txt", "out/sub/f.txt", "bin/tool", S.proto("dïr/a b.txt")]
-PRIORS_DIR = ["absent", "absent-parents", "same", "other-tree", "mutated", "file-at-dst", "empty-dir", "dangling-link-at-dst", "mutated"]
-PRIORS_FILE = ["absent", "absent-parents", "same", "modified", "truncated", "exec-flipped", "other-exec", "modified"]
+PKGS = ["", "p", "p/q", "pages/[slug]", S.proto("a b/ü*")]
+WSNAMES = ["ws", "ws", "clients/[acme]/w s", "a*b?c", S.proto("ünï/{x}/[1-9]"), "back\\slash"]
+DIR_IDS = ["out", "out/sub/dir", "dist", S.proto("öut/d ir"), "dist[debug]", "o*t/[a-z]"]
+FILE_IDS = ["f.txt", "out/sub/f.txt", "bin/tool", S.proto("dïr/a b.txt"), "gen[1]/f?.txt"]
+PRIORS_DIR = ["absent", "absent-parents", "same", "other-tree", "mutated", "file-at-dst", "empty-dir", "dangling-link-at-dst", "mutated", "link-to-same-dir", "link-to-other-dir"]
+PRIORS_FILE = ["absent", "absent-parents", "same", "modified", "truncated", "exec-flipped", "other-exec", "modified", "link-to-same-file", "link-to-other-file", "dangling-link-at-dst", "dir-at-dst"]
 
 
 def split(p):
@@ -83,6 +84,15 @@ def make_prior(rng, kind, ws, pkg, dst, cached):
         return S.put(ws, dst, D())
     if kind == "dangling-link-at-dst":
         return S.put(ws, dst, L("nowhere"))
+    if kind in ("link-to-same-dir", "link-to-other-dir"):
+        # a symbolic link sits at the directory output path; it points to a directory elsewhere in the workspace with the cached / another content
+        pr = S.put(ws, ["elsewhere-dir"], cached if kind == "link-to-same-dir" else S.mutate_tree(rng, cached))
+        return S.put(pr, dst, L("../" * (len(dst) - 1) + "elsewhere-dir"))
+    if kind in ("link-to-same-file", "link-to-other-file"):
+        pr = S.put(ws, ["elsewhere.txt"], cached if kind == "link-to-same-file" else F("precious, must not be touched", not cached[2]))
+        return S.put(pr, dst, L("../" * (len(dst) - 1) + "elsewhere.txt"))
+    if kind == "dir-at-dst":
+        return S.put(ws, dst, D(("in-the-way", F("x")), ("sub", D())))
     if kind == "modified":
         return S.put(ws, dst, F(cached[1] + "!", cached[2]))
     if kind == "truncated":
@@ -98,7 +108,8 @@ def gen_case(rng, i, scratch, quick):
     pkg = rng.choice(PKGS)
     r = rng.random()
     ws = base_ws(rng, pkg)
-    case = {"op": "store.roundtrip", "scratch": scratch, "pkg": pkg, "bin": "", "outputs": [], "variant": "fixed"}
+    case = {"op": "store.roundtrip", "scratch": scratch, "pkg": pkg, "bin": "", "outputs": [], "variant": "fixed",
+            "wsname": rng.choice(WSNAMES), "progress": rng.random() < 0.5}
     meta = {"i": i}
     if r < 0.55:
         oid = rng.choice(DIR_IDS)
@@ -129,8 +140,14 @@ def gen_case(rng, i, scratch, quick):
     if rng.random() < 0.2 and not case["bin"]:
         oid2 = "second/" + rng.choice(["x.bin", "y"])
         if rng.random() < 0.5:
-            case["ws"] = S.put(case["ws"], split(pkg) + split(oid2), F("second", rng.random() < 0.5))
-            case["outputs"].append(["file", oid2])
+            # often: the same bytes as the first (file) output with the opposite executable bit, declared before or after it
+            twin = meta["kind"] == "file" and rng.random() < 0.6
+            case["ws"] = S.put(case["ws"], split(pkg) + split(oid2), F(cached[1], not cached[2]) if twin else F("second", rng.random() < 0.5))
+            if twin and rng.random() < 0.5:
+                case["outputs"].insert(0, ["file", oid2])
+            else:
+                case["outputs"].append(["file", oid2])
+            meta["twin"] = twin
         else:
             case["ws"] = S.put(case["ws"], split(pkg) + split(oid2), S.gen_tree(rng, 2, 3))
             case["outputs"].append(["dir", oid2])
@@ -152,7 +169,11 @@ def gen_case(rng, i, scratch, quick):
         # restore (the next build) then has to repair whatever the failed one left behind
         case["getfault"] = {"n": rng.randint(1, 6), "kind": rng.choice(["err", "err-mid"])}
         meta["getfault"] = True
-    elif r < 0.22:
+    elif r < 0.24:
+        # the restored outputs are modified in place (same inode), then restored again: the cache still has to deliver the cached state
+        case["tamper"] = rng.choice(["append", "truncate", "overwrite", "chmod"])
+        meta["tamper"] = True
+    elif r < 0.32:
         outs = [list(o) for o in case["outputs"]]
         m = rng.choice(["perm", "extra", "retype", "rename", "fewer"]) if outs else "extra"
         if m == "perm":
@@ -167,6 +188,8 @@ def gen_case(rng, i, scratch, quick):
             outs = outs[1:]
         case["declared2"] = outs
         meta["declared2"] = m
+    if (meta.get("tamper") or meta.get("twin") or rng.random() < 0.15) and not meta.get("getfault"):
+        case["direct"] = True
     return case, meta, dst
 
 
@@ -253,6 +276,18 @@ def oracle(ctx, case, meta, x):
                 ctx.violation("restore hangs when a blob is missing", {"kind": "oracle", "oracle": "missing blob => error", "request": case,
                               "meta": meta, "impl": x}, signature="restore-hangs")
             continue
+        if case.get("tamper") and x.get("load") == "ok" and a == b:
+            a3 = S.canon(S.get(x.get("after3"), dst))
+            if x.get("load3") != "ok" or a3 != b:
+                bad += 1
+                ctx.violation("after a restored output was modified in place (%s) the next restore does not reproduce the cached output" % case["tamper"],
+                              {"kind": "oracle", "oracle": "restore; modify in place; restore", "request": case, "meta": meta, "output": oid, "cached": b,
+                               "restored_again": a3, "load3": x.get("load3"), "load3_msg": x.get("load3_msg", "")}, signature="restore-after-in-place-modification-differs")
+            if x.get("cache_audit"):
+                bad += 1
+                ctx.violation("modifying a restored output in place changed the cache: " + x["cache_audit"][0],
+                              {"kind": "oracle", "oracle": "cache audit after in-place modification of an output", "request": case, "meta": meta,
+                               "audit": x["cache_audit"]}, signature="output-modification-poisons-cache")
         if x.get("load") != "ok" or a != b:
             bad += 1
             ctx.violation("restored output differs from what was cached (or the restore failed with every blob present)",
@@ -286,7 +321,7 @@ def compare(case, x, y):
         if x.get("load") == "ok" and y.get("load") == "ok":
             if S.jdump(S.canon(x["after"])) != S.jdump(S.canon(y["after"])):
                 diffs.append("after")
-            if x.get("gets") != y.get("gets"):
+            if x.get("gets") != y.get("gets") and not case.get("direct"):
                 diffs.append("gets")
     return diffs
 
@@ -319,6 +354,26 @@ def fixed_cases(scratch, quick=True):
         for prior in (D(), D(("p", D(("out", t)))), D(("p", D(("out", F("file"))))), D(("p", D(("out", D(("stale", F("s"))))))) ):
             out.append((case(D(("p", D(("out", t)))), prior, [["dir", "out"]]),
                         {"kind": "dir", "prior": "shape", "size": S.size(t), "depth": S.depth(t), "fam": "shapes"}))
+    # identical bytes, different executable bits, declared in both orders; restored into an empty workspace and over the swapped modes
+    twin = D(("p", D(("tool.sh", F("#!/bin/sh\necho hi\n", True)), ("tool.sh.txt", F("#!/bin/sh\necho hi\n", False)))))
+    swapped = D(("p", D(("tool.sh", F("#!/bin/sh\necho hi\n", False)), ("tool.sh.txt", F("#!/bin/sh\necho hi\n", True)))))
+    for outs in ([["file", "tool.sh"], ["file", "tool.sh.txt"]], [["file", "tool.sh.txt"], ["file", "tool.sh"]]):
+        for prior in (D(("p", D())), swapped, D()):
+            out.append((case(twin, prior, outs, direct=True), {"kind": "file", "prior": "twin-modes", "size": 18, "depth": 0, "fam": "twins"}))
+            out.append((case(twin, prior, outs, tamper="chmod", direct=True), {"kind": "file", "prior": "twin-modes", "size": 18, "depth": 0, "fam": "twins", "tamper": True}))
+    # restore, modify the output in place, restore again (file and directory outputs)
+    wsf = D(("p", D(("data.txt", F("line 1\nline 2\n")), ("out", D(("a", F("aaa", True)), ("s", D(("b", F("bbbbbb")))))))))
+    for how in ("append", "truncate", "overwrite", "chmod"):
+        out.append((case(wsf, D(("p", D())), [["file", "data.txt"]], tamper=how, direct=True), {"kind": "file", "prior": "absent", "size": 14, "depth": 0, "fam": "tamper", "tamper": True}))
+        out.append((case(wsf, D(("p", D())), [["dir", "out"]], tamper=how, direct=True), {"kind": "dir", "prior": "absent", "size": 5, "depth": 2, "fam": "tamper", "tamper": True}))
+    # the absolute destination path contains glob meta characters / spaces / unicode in PARENT directories; stale extras at every depth
+    tg = D(("a", F("1")), ("s", D(("b", F("2", True)))), ("e", D()))
+    stale = D(("a", F("old")), ("stale.txt", F("x")), (".hidden", F("x")), ("s", D(("b", F("2")), ("stale", F("y")))), ("sd", D(("z", F("z")))))
+    for wsname in ("clients/[acme]/ws", "a*b?c", S.proto("ünï/{x}/[1-9]"), "w s"):
+        for pkg, oid in (("p", "out"), ("pages/[slug]", "dist[debug]")):
+            wsg = S.put(D(), split(pkg) + split(oid), tg)
+            out.append((case(wsg, S.put(D(), split(pkg) + split(oid), stale), [["dir", oid]], pkg=pkg, wsname=wsname),
+                        {"kind": "dir", "prior": "glob-path", "size": S.size(tg), "depth": 2, "fam": "glob-path"}))
     # boundary sizes (buffer sizes, io.Copy chunks, powers of two) for file outputs and for files inside a directory output
     def pat(nbytes, salt=0):
         return "".join(chr((i * 7 + salt) % 251) for i in range(nbytes))
@@ -388,6 +443,9 @@ def run(ctx):
         dist["shortcut"] += 1 if x.get("load") == "ok" and x.get("gets") == 0 else 0
         if m.get("getfault") and x.get("load") == "err":
             dist["getfault_hit"] += 1
+        for k in ("tamper", "twin"):
+            if m.get(k):
+                dist[k] = dist.get(k, 0) + 1
         for k in ("drop", "declared2", "multi", "bin", "getfault"):
             if m.get(k):
                 dist["dropped" if k == "drop" else k] += 1
@@ -420,6 +478,7 @@ def run(ctx):
                               "again": {k: x.get(k) for k in ("write", "load", "nblobs", "nchildren", "gets")}}, signature="nondeterministic-restore")
     ctx.coverage["repeated_cases"] = len(rep_idx) * 3
     ctx.coverage["nondeterministic"] = nondet
+    two_tier_restores(ctx, scratch, dist)
     ctx.coverage["distinct_nontrivial"] = len(seen)
     ctx.coverage["distribution"] = dist
     ctx.coverage["oracle_failures"] = oracle_fail
@@ -429,6 +488,36 @@ def run(ctx):
         ctx.violation("model and implementation disagree (correspondence Registry.WriteOutputs/LoadOutputs vs GrogModel.Tree) on: " + ",".join(d),
                       {"kind": "correspondence", "correspondence": "store.roundtrip vs GrogModel.Tree (writeDir/restoreDir/writeFile/restoreFile/validateOutputs)",
                        "fields": d, "request": c, "meta": m, "impl": x, "model": y, "n_disagreements": len(disagreements)}, found_input=False)
+
+
+def two_tier_restores(ctx, scratch, dist):
+    """restores through the real RemoteWrapper (two-tier cache): a directory sits where a file output should be, then the same digest is
+    restored again; reads failing mid-stream; consumers that stop early. Oracle: successful restores are byte-identical, the local caches
+    only hold entries that match their digests."""
+    from . import c08
+    hs = [h for h in c08.systematic_histories(ctx.rng, False) if h[3].split(":")[1] in ("blocked-restore", "peek-restore")]
+    hs = (hs if ctx.tier != "quick" else hs[::3] + [h for h in hs if h[3].endswith(":none")])
+    hs = [(ws, t, h + [{"m": "Z", "do": "restore", "targets": list(range(len(t)))}], fam) for ws, t, h, fam in hs]
+    reqs = [{"op": "store.remote", "scratch": scratch, "ws": ws, "targets": t, "history": h, "remote": ("mem", "s3")[i % 2], "progress": i % 4 < 2, "direct": i % 2 == 0}
+            for i, (ws, t, h, _) in enumerate(hs)]
+    outs = S.impl(ctx, reqs) or []
+    n = 0
+    for (ws, t, h, fam), req, x in zip(hs, reqs, outs):
+        if "error" in x or "panic" in x:
+            ctx.violation("implementation driver failed on a two-tier restore history", {"kind": "impl-crash", "request": req, "impl": x}, signature="driver-error", found_input="panic" in x)
+            continue
+        n += 1
+        for st in x.get("steps") or []:
+            for mname, bad in (st.get("local_audit") or {}).items():
+                ctx.violation("a failed restore left an entry in the local cache whose content does not match its digest (later restores of that digest are wrong): " + bad[0],
+                              {"kind": "oracle", "oracle": "content audit of the local caches after restores", "request": req, "step": st, "family": fam},
+                              signature="restore-poisons-local-cache")
+            for r in st.get("results") or []:
+                if r.get("kind", st["do"]) in ("restore", "restore-blocked") and r["outcome"] == "ok" and not r.get("equal"):
+                    ctx.violation("a restore through the two-tier cache produced outputs that differ from what was cached",
+                                  {"kind": "oracle", "oracle": "restored == cached (two-tier)", "request": req, "step": st, "family": fam},
+                                  signature="two-tier-restore-wrong-content")
+    dist["two_tier_histories"] = n
 
 
 def replay(ctx, rep):
